@@ -1044,6 +1044,9 @@ mod tap {
         // hands to the RTCP listener is looked at
         let (rl_tx, mut rl_rx) = mpsc::channel::<Vec<RtcpPacket>>(256);
         t2.register_rtcp_listener(rl_tx);
+        // the same on the SENDING side (its NACK handling stops here; retransmissions have been seen by now)
+        let (rl1_tx, mut rl1_rx) = mpsc::channel::<Vec<RtcpPacket>>(1024);
+        t1.register_rtcp_listener(rl1_tx);
         // cleartext injected towards peer 2 from the address peer 2 trusts (the relay's b socket): RTP with the
         // live stream's SSRC and payload type, and an RTCP BYE for it
         let media_ssrc = relay.log.lock().iter().rev().find(|(d, b)| *d == 1 && b.len() > 12 && (128..192).contains(&b[0]) && !rustrtc::rtp::is_rtcp(b))
@@ -1061,11 +1064,11 @@ mod tap {
                 let _ = relay.b.send_to(&rustrtc::rtp::marshal_rtcp_packets(&pk).unwrap(), to).await;
             }
         }
-        // … and a clear PLI towards peer 1 (the sender) from the address IT trusts: an accepted PLI surfaces as a
-        // key-frame request on the local track's feedback channel
+        // … and clear feedback (PLI, NACK) towards peer 1 (the sender) from the address IT trusts
         if let Some(to) = *relay.pc1.lock() {
             let pli = rustrtc::rtp::marshal_rtcp_packets(&[RtcpPacket::PictureLossIndication(rustrtc::rtp::PictureLossIndication { sender_ssrc: 0x0BAD_0003, media_ssrc })]).unwrap();
-            for _ in 0..3 { let _ = relay.a.send_to(&pli, to).await; }
+            let nack = rustrtc::rtp::marshal_rtcp_packets(&[RtcpPacket::GenericNack(rustrtc::rtp::GenericNack { sender_ssrc: 0x0BAD_0004, media_ssrc, lost_packets: vec![1, 2] })]).unwrap();
+            for _ in 0..2 { let _ = relay.a.send_to(&pli, to).await; let _ = relay.a.send_to(&nack, to).await; }
         }
         // long enough for the first sender report (3 s after the stream started)
         tokio::time::sleep(std::time::Duration::from_millis(if long { 2400 } else { 500 })).await;
@@ -1082,8 +1085,20 @@ mod tap {
                 }
             }
         }
-        let mut keyframe_requests_at_sender = 0u64;
-        while fb.try_recv().is_ok() { keyframe_requests_at_sender += 1; }
+        // what peer 1's transport handed to ITS RTCP listener after the swap: authentic NACKs keep coming (the positive
+        // control that the observation point works), the injected clear PLI / NACK must not be among them
+        let mut rtcp_to_sender_listener = 0u64;
+        while let Ok(pks) = rl1_rx.try_recv() {
+            for pk in pks {
+                rtcp_to_sender_listener += 1;
+                match pk {
+                    RtcpPacket::PictureLossIndication(x) if x.sender_ssrc == 0x0BAD_0003 => injected_rtcp_seen.push("pli-at-sender"),
+                    RtcpPacket::GenericNack(x) if x.sender_ssrc == 0x0BAD_0004 => injected_rtcp_seen.push("nack-at-sender"),
+                    _ => {}
+                }
+            }
+        }
+        let _ = &mut fb;
         let marker_seen_by_peer2 = watch.seen_marker.load(Ordering::Relaxed);
         stop.store(true, Ordering::Relaxed);
         let _ = sender_task.await;
@@ -1135,9 +1150,6 @@ mod tap {
             }
         }
         for k in &injected_rtcp_seen { fails.push((format!("wire:injected-clear-rtcp-reached-rtcp-listener:{name}:{k}"), "the transport handed an injected clear RTCP packet to the RTCP listener".into())); }
-        // every key-frame request the sender's track saw must stem from an authentic PLI/FIR of peer 2
-        let authentic_pli = kinds.get("dir2:rtcp-pt206").copied().unwrap_or(0);
-        if keyframe_requests_at_sender > authentic_pli { fails.push((format!("wire:injected-clear-pli-acted-on:{name}"), format!("{keyframe_requests_at_sender} key-frame requests reached the sending track, only {authentic_pli} authentic PLI packets were on the wire"))); }
         // re-sends of the original packet (no RTX): the same (SSRC, sequence number) seen again in the media direction
         {
             let mut seen: HashSet<(u32, u16)> = HashSet::new();
@@ -1147,7 +1159,7 @@ mod tap {
             kinds.insert("dir1:rtp-pt96-resent".into(), dup);
         }
         kinds.insert("peer2_rtcp_packets_to_listener".into(), rtcp_to_listener);
-        kinds.insert("peer1_keyframe_requests".into(), keyframe_requests_at_sender);
+        kinds.insert("peer1_rtcp_packets_to_listener".into(), rtcp_to_sender_listener);
         if watch.seen_inject.load(Ordering::Relaxed) { fails.push((format!("wire:injected-cleartext-reached-observer:{name}"), "on_ingress saw the injected clear RTP".into())); }
         if delivered_inject.load(Ordering::Relaxed) { fails.push((format!("wire:injected-cleartext-reached-track:{name}"), "the remote track delivered the injected clear RTP".into())); }
         kinds.insert("relay_dropped_rtp".into(), relay.dropped.load(Ordering::Relaxed));
@@ -1176,6 +1188,8 @@ async fn wire_tap(run: &mut Run) {
                     let mut missing: Vec<&str> = need.iter().copied().filter(|k| r.kinds.get(*k).copied().unwrap_or(0) == 0).collect();
                     // the three feedback entry points each produce a PLI / NACK of their own
                     if r.kinds.get("dir2:rtcp-pt206").copied().unwrap_or(0) < 2 { missing.push("second PLI (track feedback event)"); }
+                    // positive control of the inbound-RTCP observation point: authentic feedback did reach the swapped listener
+                    if r.kinds.get("peer1_rtcp_packets_to_listener").copied().unwrap_or(0) == 0 { missing.push("authentic RTCP at the sender's RTCP listener"); }
                     for (sig, detail) in &r.fails { run.fail(sig, &format!("wire {name}"), detail); }
                     if !r.fails.is_empty() || missing.is_empty() {
                         for (k, v) in &r.kinds { run.count_n(&format!("wire_{name}_{k}"), *v); }
